@@ -25,6 +25,20 @@ def inst_map():
     return dict(zip(names, cpps))
 
 
+TOPO_FAMILY = "polyhedron-operands-cast-by-first-topology"
+
+
+def topo_unchecked(facts):
+    """Entries with two Polyhedron operands that test the topology of the first one only (one call of
+    is_necessarily_closed_for_interfaces) and cast BOTH operands by it."""
+    pm = {p["name"]: p["params"] for p in facts["protos"]}
+    out = []
+    for e in facts["entries"]:
+        if e["calls"].count("is_necessarily_closed_for_interfaces") == 1 and len(re.findall(r"ppl_(?:const_)?Polyhedron_t \w", pm.get(e["name"], ""))) >= 2:
+            out.append(e["name"])
+    return out
+
+
 def py_tight(e):
     """Mirror of Entries.tight (only used to NAME the offending entry when the Coq build fails)."""
     if e["has_try"]:
@@ -85,6 +99,9 @@ def static_part(chk, facts, objs):
         if not (cands & set(e["calls"])) and (e["name"] + "_with_tokens") not in e["calls"]:
             chk.failure({"site": e["name"], "condition": "wraps-other-method"},
                         {"entry": e["name"], "expected_method": sorted(cands), "calls": e["calls"], "file": e["file"]})
+    for nm in topo_unchecked(facts):
+        chk.failure({"site_family": TOPO_FAMILY, "condition": "second-operand-topology-unchecked"},
+                    {"entry": nm, "meaning": "the entry casts both Polyhedron operands to C_/NNC_Polyhedron according to the topology of the FIRST one only"})
     regs = {e["name"]: e.get("static_objs", []) for e in entries if e["name"] in ("ppl_set_timeout", "ppl_set_deterministic_timeout")}
     want = {"ppl_set_timeout": ["timeout_exception"], "ppl_set_deterministic_timeout": ["deterministic_timeout_exception"]}
     for k, v in want.items():
@@ -108,7 +125,7 @@ def static_part(chk, facts, objs):
 def build_driver(chk, top, gen, libdir, dom, cpp, facts, allmap):
     pm = {p["name"]: p for p in facts["protos"]}
     protos = [pm[e["name"]] for e in facts["entries"] if e["file"] == "ppl_c_%s.cc" % dom and e["name"] in pm]
-    g = gen_cif.Gen(dom, cpp, protos, allmap, chk.seed, not chk.quick, facts["dangling"].keys())
+    g = gen_cif.Gen(dom, cpp, protos, allmap, chk.seed, not chk.quick, facts["dangling"].keys(), topo_unchecked(facts))
     N = 8
     srcs = g.generate_chunks(N)
     support = open(os.path.join(common.VERIF, "harness", "cif_support.hh"), "rb").read()
@@ -225,6 +242,13 @@ def judge_lines(chk, facts, dom, lines, stats):
                 obs.append((f[1], f[3]))
         elif f[0] == "O" and len(f) >= 13:
             O_.append(f)
+        elif f[0] == "U" and len(f) >= 5:
+            # probe (forked child) of a call the facts say is undefined behaviour: mixed topologies must be rejected
+            chk.count(1, key=(f[1], "probe", f[3].split(":")[0]))
+            if not (f[3] == "ret:-3" and f[4] == "-3"):
+                chk.failure({"site_family": TOPO_FAMILY, "condition": "mixed-topology-not-rejected"},
+                            {"domain": dom, "entry": f[1], "variant": f[2], "outcome": f[3], "handler_codes": f[4],
+                             "expected": "PPL_ERROR_INVALID_ARGUMENT (-3): every other binary Polyhedron operation rejects topology-incompatible operands"})
         elif f[0] == "L":
             chk.failure({"site": f[1], "condition": "leak"}, {"domain": dom, "line": ln})
         elif f[0] == "X":
